@@ -58,14 +58,22 @@ func (c *viewClient) Username() string {
 	if c.hook != nil {
 		c.hook("get/username")
 	}
+	c.mu.Lock()
+	defer c.mu.Unlock()
 	return c.user
 }
-func (c *viewClient) Init(u string, p []string)    { c.user = u; c.perms = p }
+func (c *viewClient) Init(u string, p []string) {
+	c.mu.Lock()
+	defer c.mu.Unlock()
+	c.user, c.perms = u, p
+}
 func (c *viewClient) Data() map[string]interface{} { return nil }
 func (c *viewClient) Permissions() []string {
 	if c.hook != nil {
 		c.hook("get/permissions")
 	}
+	c.mu.Lock()
+	defer c.mu.Unlock()
 	return c.perms
 }
 func (c *viewClient) PushConn(g *group.Group, id string, up conn.Up, tracks []conn.UpTrack, replace string) error {
